@@ -135,6 +135,38 @@ fn c11_oracle(r: &mut Report, store: &Store, u: &resolver::StoreUpdates, mode_of
     }
 }
 
+fn c12_prune_oracle(r: &mut Report, md: &Metadata, store: &Store, u: &resolver::StoreUpdates, case: &str) {
+    let Some(spec) = spec_of(store) else { return };
+    let sg = core::SpecGraph::new(md);
+    let Some(demand) = sg.demand(&store.config.policy, &spec) else { return };
+    for (name, l) in &u.exemptions {
+        let Some(edges) = core::spec_edges(store, &spec, name) else { continue };
+        let no_ex = |e: &core::SpecEdge| e.kind != "exemption" && e.kind != "unpublished";
+        for x in l {
+            for c in &x.criteria {
+                r.oracle_checked += 1;
+                let Some(clc) = spec.cl(&[c.to_string()]) else { continue };
+                // some in-graph third-party version of the crate, some criterion required of it that
+                // this listed criterion would certify, not certifiable without exemptions
+                let mut needed = false;
+                for p in 0..sg.ids.len() {
+                    if sg.name[p] != *name || !sg.third_party(&store.config.policy, p) {
+                        continue;
+                    }
+                    for cr in 0..spec.crits.len() {
+                        if demand[p] & (1 << cr) != 0 && clc & (1 << cr) != 0 && !core::spec_reach(&edges, cr, &no_ex).contains(&Some(sg.ver[p].clone())) {
+                            needed = true;
+                        }
+                    }
+                }
+                if !needed {
+                    r.fail("oracle", "C12/prune-keeps-unneeded-exemption", format!("after prune the exemption {name}:{} still lists `{}` although every in-graph version of {name} is certified without exemptions for every required criterion it implies", x.version, **c), case);
+                }
+            }
+        }
+    }
+}
+
 pub fn check_world(r: &mut Report, d: &mut Driver, rng: &mut Rng, w: &gen::GWorld, tag: &str) {
     r.evaluations += 1;
     let store = w.store();
@@ -178,6 +210,32 @@ pub fn check_world(r: &mut Report, d: &mut Driver, rng: &mut Rng, w: &gen::GWorl
         let mcase = format!("{case}\nmode={mname}");
         if prop == "C11" {
             c11_oracle(r, &store, &u, &mode_of, &mcase);
+        }
+        // C04 across runs: a violation a peer serves for a crate in the graph is never dropped
+        // from what is written to imports.lock, in any mode (theorem C04_update_keeps_violations)
+        if prop == "C04" {
+            let in_graph: BTreeSet<String> = md.packages.iter().map(|p| p.name.clone()).collect();
+            for (imp, f) in store.imported_audits() {
+                for (name, l) in &f.audits {
+                    if !in_graph.contains(name) {
+                        continue;
+                    }
+                    for a in l.iter().filter(|a| matches!(a.kind, AuditKind::Violation { .. })) {
+                        r.oracle_checked += 1;
+                        let kept = u.imports.audits.get(imp).and_then(|af| af.audits.get(name)).map(|ll| ll.iter().any(|x| AuditEntry { is_fresh_import: false, ..x.clone() } == AuditEntry { is_fresh_import: false, ..a.clone() })).unwrap_or(false);
+                        if !kept {
+                            r.fail("oracle", "C04/violation-dropped-from-lock", format!("mode {mname}: the violation {:?} served by `{imp}` for in-graph crate {name} is not in the imports.lock the update writes", a.kind), &mcase);
+                        }
+                    }
+                }
+            }
+        }
+        // C12 (prune half): after `prune`, an exemption — and each criterion it lists — remains only
+        // if some in-graph version of that crate cannot otherwise be certified for a required
+        // criterion from audits and grants.  Recomputed from the records: demand fixpoint +
+        // reachability over non-exemption, non-unpublished edges of the store as loaded.
+        if prop == "C12" && mname == "prune" && before == "success" {
+            c12_prune_oracle(r, md, &store, &u, &mcase);
         }
         // C09/C10: a passing store still passes (as the next --locked run sees it)
         let after_store = locked_after(&store, u);
